@@ -293,6 +293,9 @@ type evaluator struct {
 	// phiSym controls how phis are named: by comment (source variable) only
 	cache    map[ssa.Value]*term
 	bitsBusy map[ssa.Value]bool
+	// expandPhi: render loop-free phis structurally (for sibling comparison)
+	expandPhi bool
+	phiBusy   map[*ssa.Phi]bool
 }
 
 func newEval(p *Program) *evaluator {
@@ -490,6 +493,28 @@ func (e *evaluator) eval1(v ssa.Value) *term {
 	case *ssa.MakeInterface:
 		return e.eval(x.X)
 	case *ssa.Phi:
+		if e.expandPhi {
+			if e.phiBusy == nil {
+				e.phiBusy = map[*ssa.Phi]bool{}
+			}
+			if !e.phiBusy[x] && len(e.phiBusy) < 6 {
+				e.phiBusy[x] = true
+				var args []*term
+				cyc := false
+				for _, ed := range x.Edges {
+					t := e.eval1(ed)
+					if strings.Contains(t.String(), "phi:"+x.Comment+"@") {
+						cyc = true
+					}
+					args = append(args, t)
+				}
+				delete(e.phiBusy, x)
+				if !cyc {
+					sortTerms(args)
+					return &term{op: "phi", args: args}
+				}
+			}
+		}
 		return S("phi:" + x.Comment + "@" + x.Parent().Name() + "." + fmt.Sprint(x.Block().Index))
 	case *ssa.Field:
 		return ON("field", fmt.Sprint(x.Field), e.eval(x.X))
